@@ -68,7 +68,11 @@ def main():
                 props = [c['property_id'] for c in man['checks']]
             for p in props:
                 t0 = time.time()
-                rc2, o2 = sh('./check %s quick' % p, cwd=VERIF, timeout=3600, env=dict(os.environ, VERIF_REPO=target))
+                # evidence / replays of a run on a CHANGED tree go to scratch directories: /verif/evidence holds only records
+                # of the unchanged tree (a seeded run once overwrote the committed evidence files)
+                rc2, o2 = sh('./check %s quick' % p, cwd=VERIF, timeout=3600, env=dict(
+                    os.environ, VERIF_REPO=target, VERIF_EVIDENCE_DIR=os.path.join(VERIF, '.seed_evidence'),
+                    VERIF_REPLAYS=os.path.join(VERIF, '.seed_replays')))
                 viol = [l for l in o2.split('\n') if l.startswith('VIOLATION')]
                 failed = [l.strip() for l in o2.split('\n') if l.strip().startswith('failed:')][:6]
                 checks[p] = dict(rc=rc2, violation=bool(viol), lines=viol + failed, wall=round(time.time() - t0, 1),
